@@ -929,6 +929,10 @@ func checkRewriteValidateRestore(c *Ctx, rule string) {
 		if f == nil || !IsModuleFunc(f) {
 			return false
 		}
+		// (a search over candidate callees, not a root a rule decides on: kept out of the T1 audit's root list)
+		was := p.auditing
+		p.auditing = true
+		defer func() { p.auditing = was }()
 		for g := range p.Reach(f) {
 			if atomic[g] {
 				return true
@@ -1288,6 +1292,9 @@ func (p *Program) atomicWriters() map[*ssa.Function]*ssa.Function {
 	isSync := func(x ssa.CallInstruction) bool { return calleeIs(x, "os", "File", "Sync") }
 	isTemp := func(x ssa.CallInstruction) bool { return calleeIs(x, "os", "", "CreateTemp") }
 	keep := func(callee *ssa.Function) bool {
+		was := p.auditing
+		p.auditing = true // a search over candidate callees, not a rule's root
+		defer func() { p.auditing = was }()
 		return p.FuncReaches(callee, isSync, map[*ssa.Function]bool{}) && !p.FuncReaches(callee, isTemp, map[*ssa.Function]bool{})
 	}
 	for _, pkg := range []string{"app", "mcp"} {
